@@ -22,7 +22,10 @@ RULE = ("programs of 0-60 scripted tests, phases of 0-5 statements; every failur
 ASSUMPTIONS = ["rethrowExceptions off (-e / -ci) whenever a program can throw: DESIGN C01 scope decision",
                "fewer than 2^31 failures in total (the runner's size_t -> int return value would wrap; needs 2^32 failing checks)",
                "failing checks in constructors/destructors of tests and exceptions thrown by plugins are outside the quantifier",
-               "longjmp and C++ unwinding obey their contract (the instrumented ASan/UBSan runs exhibit the real ones)"]
+               "longjmp and C++ unwinding obey their contract (the instrumented ASan/UBSan runs exhibit the real ones)",
+               "repetition-dependent behaviour is a function of the repetition number only: the scripted test reads its own static creation counter, "
+               "the plugin its own call counters (equal to the runner's loop counter because every started test is created once per repetition); "
+               "the number after -r is read as CommandLineArguments::setRepeatCount does (-r0 repeats twice)"]
 PER_TIMEOUT = 30.0
 KINDS = ["x", "j", "s", "o"]
 
